@@ -352,6 +352,20 @@ BOUNDS["quick"]["x86_64"] = ("every instruction class of ppci.arch.x86_64.instru
                              "(symbolic number), displacement / absolute address -2**31-2 .. 2**31+2, immediates 4 x the documented "
                              "range, branch distance 2 x the rel8/rel32 reach at every address below 2**47")
 BOUNDS["thorough"]["x86_64"] = BOUNDS["quick"]["x86_64"].replace("4 x", "16 x").replace("2 x", "16 x")
+OUTSIDE[0] = OUTSIDE[0].replace("x86_64, ", "")
+OUTSIDE += ["x86_64: SSE2 / x87 classes, data directives, the `rep` prefix pseudo-instruction; instruction forms ppci has no class for",
+            "x86_64: displacements outside the signed 32-bit range and immediates outside the documented range of the instruction "
+            "form (mov r, imm: the register's width in either spelling; add/and/sub/xor/cmp r64, imm: sign-extended imm32; int: 0..255; "
+            "rel8/rel32 signed) -- whether they must be rejected is C10 (known findings C10-reloc-x86-*)",
+            "x86_64: absolute-label operands (mov reg, label; [label]): only the base encoding with a zero field is compared",
+            "x86_64: the access size of a memory operand when no register operand fixes it (ppci prints `shr [rax]` for the 16-, 32- and "
+            "64-bit class alike)"]
+ASSUMPTIONS += ["ref/x86dec.py states Intel SDM vol. 2 (ch. 2 instruction format, app. A opcode maps) correctly for the decoded subset "
+                "(self-tested: 68 hand-checked encodings, the repo's x86 assembler test vectors, 600 (thorough: 5000) random encodings per "
+                "run cross-checked with GNU objdump when it is installed -- validation of the decoder only)",
+                "x86_64: ppci's memory operand syntax [base], [base, disp], [base, index, disp], [rip, disp], [address] denotes "
+                "base + index*1 + displacement; a one-operand shl/shr denotes the manual's shift by 1 (D0/D1 forms)",
+                "x86_64: the register ppci prints is the one whose NAME the real register object carries (manual numbering of that name)"]
 # ===== end x86 block
 
 
